@@ -372,6 +372,7 @@ func (w *World) foldRound(overlay map[string][]byte, st *foldState) map[string][
 				foldDebug("%s: inline: %v", key, err)
 				continue
 			}
+			res.Content = restoreDroppedImports(w.Fset, p.TypesInfo, s.file, res.Content)
 			out[fname] = res.Content
 			if b, k := unliteralize(fname, res.Content); true {
 				out[fname] = b
@@ -525,7 +526,25 @@ func (w *World) pruneFoldedHelpers(overlay map[string][]byte, tab *anchorTable) 
 				if imp.Name != nil && (imp.Name.Name == "_" || imp.Name.Name == ".") {
 					continue
 				}
-				if !astutil.UsesImport(af, path) {
+				// (astutil.UsesImport guesses an unnamed import's package name from the last path element: wrong for
+				// gopkg.in/yaml.v2, whose package is yaml - the name is taken from the type-checked imports instead)
+				used := astutil.UsesImport(af, path)
+				if !used && imp.Name == nil {
+					for _, ip := range p.Types.Imports() {
+						if ip.Path() == path {
+							nm := ip.Name()
+							ast.Inspect(af, func(n ast.Node) bool {
+								if se, ok := n.(*ast.SelectorExpr); ok {
+									if id, ok := se.X.(*ast.Ident); ok && id.Name == nm {
+										used = true
+									}
+								}
+								return !used
+							})
+						}
+					}
+				}
+				if !used {
 					if imp.Name != nil {
 						astutil.DeleteNamedImport(fs, af, imp.Name.Name, path)
 					} else {
@@ -910,4 +929,62 @@ func etaExpandMethodValues(fset *token.FileSet, info *types.Info, f *ast.File, s
 		out = append(out[:e.from], append([]byte(e.text), out[e.to:]...)...)
 	}
 	return out, len(edits)
+}
+
+// restoreDroppedImports: the inliner tidies the import block of the file it rewrote with goimports' heuristics, which
+// guess a package's name from its import path; for `gopkg.in/yaml.v2` imported into a package that is itself called
+// yaml the import was dropped although `yaml.Unmarshal` is still there. An import of the original file whose package
+// name is still used as a qualifier in the result is put back.
+func restoreDroppedImports(fset *token.FileSet, info *types.Info, orig *ast.File, content []byte) []byte {
+	nf, err := parser.ParseFile(token.NewFileSet(), "x.go", content, parser.ParseComments)
+	if err != nil {
+		return content
+	}
+	have := map[string]bool{}
+	for _, is := range nf.Imports {
+		have[is.Path.Value] = true
+	}
+	qualifiers := map[string]bool{}
+	ast.Inspect(nf, func(n ast.Node) bool {
+		if se, ok := n.(*ast.SelectorExpr); ok {
+			if id, ok := se.X.(*ast.Ident); ok {
+				qualifiers[id.Name] = true
+			}
+		}
+		return true
+	})
+	changed := false
+	for _, is := range orig.Imports {
+		if have[is.Path.Value] {
+			continue
+		}
+		name := ""
+		if is.Name != nil {
+			name = is.Name.Name
+		} else if pn, ok := info.Implicits[is].(*types.PkgName); ok {
+			name = pn.Name()
+		}
+		if name == "" || name == "_" || name == "." || !qualifiers[name] {
+			continue
+		}
+		path := strings.Trim(is.Path.Value, "\"")
+		fs2 := token.NewFileSet()
+		nf2, err := parser.ParseFile(fs2, "x.go", content, parser.ParseComments)
+		if err != nil {
+			return content
+		}
+		if is.Name != nil {
+			astutil.AddNamedImport(fs2, nf2, is.Name.Name, path)
+		} else {
+			astutil.AddImport(fs2, nf2, path)
+		}
+		var buf bytes.Buffer
+		if format.Node(&buf, fs2, nf2) != nil {
+			return content
+		}
+		content = buf.Bytes()
+		changed = true
+	}
+	_ = changed
+	return content
 }
